@@ -264,6 +264,8 @@ def check_C05(tier):
     # join on a numeric column whose type differs on the two sides (INT = REAL), values around 2^53 included
     engine_run(c, "numeric-join", "NumJoinMenu", lines="LinesNum", maxlines=3, maxfiles=1, joinsets="JoinSetsNum", tdefs=("numjoin",))
     engine_run(c, "join", "JoinMenu", lines="LinesJ", maxlines=4 if t else 3, maxfiles=1, tdefs=("plain", "knn") if t else ("plain",))
+    # the pairs a LIMIT keeps are the first of the ordered pair list, also when WHERE / DISTINCT reject earlier partners of a line
+    engine_run(c, "join-limit", "LimitJoinMenu", lines="LinesJ", maxlines=3 if t else 2, maxfiles=1, tdefs=("plain",))
     engine_sim(c, "join", "JoinMenu", lines="LinesJ", maxlines=8, num=1500 if t else 120, modes=("batch",))
     c.rule, c.assumptions, c.exhaustive = ENGINE_RULE, ENGINE_ASSUME, True
     return c.finish()
